@@ -8,7 +8,7 @@ mod = importlib.import_module('props.' + prop)
 g = gen.Gen(seed)
 cases = mod.generate(g, tier)
 for i, c in enumerate(cases): c['id'] = i
-t = time.time(); ir = impl.run_cases(cases); t1 = time.time() - t
+t = time.time(); ir = impl.run_cases(cases, fresh=getattr(mod, 'FRESH', False)); t1 = time.time() - t
 t = time.time(); mr = corr.run_model(cases); t2 = time.time() - t
 fs = mod.oracle(cases, ir)
 fields = getattr(mod, 'FIELDS', corr.ALL_FIELDS)
